@@ -4,6 +4,13 @@ import random
 from pyvc.api import REGISTRY
 
 P = REGISTRY.prop("C14")
+
+from contracts import c02 as _c02   # noqa: registers the C02 harnesses
+
+# seasons, rise/set and transit times are handed back as Epoch(jde): the constructor decodes the number with get_full_date() and re-encodes it with _compute_jde(); that Epoch(jde).jde() == jde
+# is proved under C01/C02 and assumed by every clause here, so those obligations are run under this property too
+P.include("C02", ["get_date/fractional", "_compute_jde/fractional-day", "get_full_date/fields-and-roundtrip", "input-forms/same-JDE"],
+          only={"input-forms/same-JDE": [dict(form="number")]})
 P.notes["level"] = "exploration"   # one proved sub-obligation (equation of time reduction); the clauses are bounded
 P.notes["rule"] = ("seasons: one case per (year, season) of -1000..3000 (thorough: all 16004, exhaustive; quick: every 7th year); "
                    "equation of time: one case per calendar day of sample centuries; rise/set: one case per (place, date); each "
@@ -475,19 +482,33 @@ def _sun_altitude(e_utc, lat, lon_east, utc=True):
 
 
 @P.bounded_check("sunrise-sunset/altitude-and-order", chunks=8, grid="latitude -66..66, longitude -180..180, height 0..5000 m, "
-                 "dates 1900..2100: 160 (quick) / 20000 (thorough) seeded (place, date) pairs")
+                 "dates 1900..2100: 160 (quick) / 20000 (thorough) seeded (place, date) pairs + 480 at the edge of the polar day "
+                 "(latitudes 64..66.5, heights 0..5000 m, +-25 days from the solstices)")
 def b_rise_set(rng, tier, k=0, n=1):
     from pymeeus.Epoch import Epoch
     from pymeeus.Angle import Angle
     N = (20000 if tier == "thorough" else 160) // n
     rng = random.Random(9176 + k)
-    for i in range(N):
+    # the edge of the polar day / night: high latitudes of the accepted band, observers above sea level (the dip lowers the standard
+    # altitude, so the Sun may stay above or below it all day), the weeks around the solstices
+    edge = []
+    if k == 0:
+        for yr in (1950.0, 2000.0, 2050.0):
+            for lat_ in (64.0, 65.5, 66.5, -64.0, -66.5):
+                for hgt_ in (0.0, 100.0, 520.0, 5000.0):
+                    for off in (-25.0, -8.0, 0.0, 12.0):
+                        for sol in (172.0, 355.0):
+                            edge.append((lat_, (lat_ * 7.0 + hgt_ / 50.0) % 360.0 - 180.0, hgt_,
+                                         math.floor(J + (yr - 2000.0) * 365.25 + sol + off) + 0.5))
+    for i in range(N + len(edge)):
         lat = rng.uniform(-66.5, 66.5)           # the whole band the function accepts (66 deg 33 arcmin)
         lon = rng.uniform(-180.0, 180.0)
         hgt = rng.choice((0.0, 0.0, 500.0, 5000.0, rng.uniform(0, 5000)))
         jd = math.floor(J + rng.uniform(-100, 100) * 365.25) + 0.5
         if i % 2:
             jd += rng.random()                    # any instant of the date, not only 0h: the result is the one of that date
+        if i >= N:
+            lat, lon, hgt, jd = edge[i - N]
         e = Epoch(jd)
         ok, det, env = True, None, ""
         h0 = -0.83 - 2.076 * math.sqrt(hgt) / 60.0
